@@ -491,7 +491,12 @@ func decodeResponseBody[R any](simpleAPISelf *SimpleAPIDef, response *APIRespons
 
 	var tempTarget interface{}
 	tempTarget, response.Err = simpleAPISelf.ResponseDeserializer(responseBody, target)
-	response.TargetObject = tempTarget.(*R)
+	// A deserializer may return (nil, err) or another type: report it instead of panicking
+	if typedTarget, ok := tempTarget.(*R); ok {
+		response.TargetObject = typedTarget
+	} else if response.Err == nil {
+		response.Err = fmt.Errorf("deserialized object is %T, not %T", tempTarget, target)
+	}
 	return response
 }
 
